@@ -164,26 +164,41 @@ def run(ctx):
                    detail, rep, detail)
     oks = [r for r in res if r[1] == 'ok']
     ctx.vacuity_witness('consts assertion reachable', oks[0][0])
-    # translator validation + literal text round trip on extreme payloads through the real build
+    native(ctx)
+    ctx.differential(src, {})
+    ctx.extra['violations_by_variant'] = seen
+
+
+def native(ctx):
+    """literal text round trip on extreme and VERIF_SEED-chosen payloads through the real build"""
     extremes = {
-        'F32': [0x00000000, 0x80000000, 0x00000001, 0x7f7fffff, 0xff7fffff, 0x3f800001, 0x00800000, 0x3dcccccd],
-        'F64': [0x0, 0x8000000000000000, 0x1, 0x7fefffffffffffff, 0xffefffffffffffff, 0x3ff0000000000001, 0x3fb999999999999a],
+        'F32': [0x00000000, 0x80000000, 0x00000001, 0x7f7fffff, 0xff7fffff, 0x3f800001, 0x00800000, 0x3dcccccd, 0x34000000, 0x5f800000, 0x007fffff],
+        'F64': [0x0, 0x8000000000000000, 0x1, 0x7fefffffffffffff, 0xffefffffffffffff, 0x3ff0000000000001, 0x3fb999999999999a, 0x0010000000000000,
+                0x3e112e0be826d695, 0x43f0000000000000],
         'U32': [0, 1, 0xffffffff], 'I32': [0, 0x7fffffff, 0x80000000, 0xffffffff],
         'U64': [0, 0xffffffffffffffff], 'I64': [0x7fffffffffffffff, 0x8000000000000000, 0xffffffffffffffff], 'Bool': [0, 1]}
-    n = 0
+    nrand = 12 if ctx.tier == 'quick' else 200
+    for _ in range(nrand):
+        b = ctx.rng.getrandbits(32)
+        if (b >> 23) & 0xff != 0xff:
+            extremes['F32'].append(b)
+        b = ctx.rng.getrandbits(64)
+        if (b >> 52) & 0x7ff != 0x7ff:
+            extremes['F64'].append(b)
+    n, reported = 0, set()
     for vname, lst in extremes.items():
-        for bits in (lst if ctx.tier == 'thorough' else lst[:5]):
+        for bits in lst:
             ok_, det = native_const(ctx, vname, bits)
             if ok_ is None:
                 continue
             n += 1
             if not ok_:
-                ctx.report(f'C15/{vname}', f'{det}', det, True, det)
+                if vname not in reported:
+                    reported.add(vname)
+                    ctx.report(f'C15/native/{vname}', f'constant does not round-trip: {det.get("real")} for payload bits {det.get("payload_bits")}', det, True, det)
             else:
                 ctx.replayed_ok += 1
-    ctx.sample({'extreme payloads replayed natively': n})
-    ctx.differential(src, {})
-    ctx.extra['violations_by_variant'] = seen
+    ctx.sample({'payloads replayed natively (extremes + seeded random)': n})
 
 
 def native_const(ctx, vname, bits):
@@ -235,4 +250,4 @@ def replay(ctx, m, vname, payload, named, is_lit):
 
 
 if __name__ == '__main__':
-    sys.exit(main('C15', run))
+    sys.exit(main('C15', run, native))
